@@ -1,0 +1,31 @@
+/**
+ * @file verif_hook.h
+ * @brief Instrumentation points for external verification tooling.
+ * @details With YAKUSHIMA_VERIF undefined (the default) both macros expand to nothing and this header has no effect.
+ * With -DYAKUSHIMA_VERIF every access to memory that is shared between sessions / the background threads, every
+ * wait, and every optimistic retry is preceded by a call of an externally provided function, so that a tool can
+ * observe or control the interleaving of those steps.
+ */
+#pragma once
+
+#ifdef YAKUSHIMA_VERIF
+extern "C" void yakushima_verif_hook(int kind, const void* addr);
+extern "C" void yakushima_verif_event(int ev, const void* ptr, unsigned long tag);
+#define YAKUSHIMA_VERIF_HOOK(kind, addr) yakushima_verif_hook((kind), (addr))
+#define YAKUSHIMA_VERIF_EVENT(ev, ptr, tag) yakushima_verif_event((ev), (ptr), (tag))
+#else
+#define YAKUSHIMA_VERIF_HOOK(kind, addr) ((void) 0)
+#define YAKUSHIMA_VERIF_EVENT(ev, ptr, tag) ((void) 0)
+#endif
+
+// kinds
+#define YAKUSHIMA_VERIF_LOAD 0  // about to read shared memory
+#define YAKUSHIMA_VERIF_STORE 1 // about to write / CAS shared memory
+#define YAKUSHIMA_VERIF_SPIN 2  // about to wait for another thread (pause / sleep inside a lock or stable-version loop)
+#define YAKUSHIMA_VERIF_RETRY 3 // about to take the back edge of an optimistic retry loop
+#define YAKUSHIMA_VERIF_SLEEP 4 // about to sleep (epoch / gc period)
+// events
+#define YAKUSHIMA_VERIF_EV_RETIRE 0  // object handed to the garbage collector (tag = epoch)
+#define YAKUSHIMA_VERIF_EV_RECLAIM 1 // object about to be released by the garbage collector
+#define YAKUSHIMA_VERIF_EV_ENTER 2   // session opened (ptr = token)
+#define YAKUSHIMA_VERIF_EV_LEAVE 3   // session closed (ptr = token)
